@@ -19,7 +19,7 @@ def finalize_entry_sites(F, P):
     for (f, bb, kind, ci) in P.usites:
         if kind != "FINALIZE":
             continue
-        rf = P.fns[f.root] if f.kind == "closure" else f
+        rf = site_root(P, f)
         if rf.impl_of and rf.impl_of.get("trait") and rf.impl_of["trait"].endswith("Finalize") and "CcBox" not in rf.impl_of["self_ty"]:
             continue
         out.append((f, bb, ci))
@@ -36,7 +36,7 @@ def check(R, F, P, cfg):
     if not fin:
         real = []
         for (f, bb, ci) in sites:
-            rf = P.fns[f.root] if f.kind == "closure" else f
+            rf = site_root(P, f)
             if rf.npath == "<cc::CcBox<T> as trace::Finalize>::finalize":
                 # forwarding impl: must be uncalled
                 if P.callers(rf.id):
@@ -53,8 +53,7 @@ def check(R, F, P, cfg):
     R.doc("R5.1", "closed set of finalizer call sites; each under needs_finalization()==true and dominated by set_finalized(true) on the same object; set_finalized(false) only in finalize_again")
     owners = set()
     for (f, bb, ci) in sites:
-        rf = P.fns[f.root] if f.kind == "closure" else f
-        owners.add(rf.npath)
+        owners |= lift_owner(P, f)        # closures, nested fns and private helpers count as the function they belong to
     expected = {"<cc::Cc<T> as std::ops::Drop>::drop", "<cc::CcBox<T> as cc::InternalTrace>::finalize_elem", "<cc::CcBox<T> as trace::Finalize>::finalize"}
     R.inst("R5.1", "who-may-finalize", owners <= expected and len(owners) >= 2, "finalizer call sites are in %s (allowed %s)" % (sorted(owners), sorted(expected)), cfg=cfg)
     own = owners_of_calls(P, lambda c: c["npath"] == "cc::InternalTrace::finalize_elem")
@@ -82,7 +81,7 @@ def check(R, F, P, cfg):
     bad = []
     for o, ss in own.items():
         for (f, bb) in ss:
-            rf = P.fns[f.root] if f.kind == "closure" else f
+            rf = site_root(P, f)
             S = Super(P, rf, opaque=DO - {rf.npath})
             for n in [x for x in S.calls_to(CM + "set_finalized") if x.ctx.fn is f and x.bb == bb]:
                 v = S.args_of(n)[1]
